@@ -129,6 +129,15 @@ Definition set_unknown (a : pinput) (v : amap) : pinput :=
        (i_ripemd a) (i_sha256 a) (i_hash160 a) (i_hash256 a) (i_tapkeysig a) (i_tapsigs a) (i_tapscripts a)
        (i_taporigins a) (i_tapik a) (i_tapmerkle a) (i_prop a) v.
 
+Definition set_bip32 (a : pinput) (v : amap) : pinput :=
+  mkIn (i_nwutxo a) (i_wutxo a) (i_psigs a) (i_sighash a) (i_redeem a) (i_witscript a) v (i_fsig a) (i_fwit a)
+       (i_ripemd a) (i_sha256 a) (i_hash160 a) (i_hash256 a) (i_tapkeysig a) (i_tapsigs a) (i_tapscripts a)
+       (i_taporigins a) (i_tapik a) (i_tapmerkle a) (i_prop a) (i_unknown a).
+Definition set_taporigins (a : pinput) (v : amap) : pinput :=
+  mkIn (i_nwutxo a) (i_wutxo a) (i_psigs a) (i_sighash a) (i_redeem a) (i_witscript a) (i_bip32 a) (i_fsig a) (i_fwit a)
+       (i_ripemd a) (i_sha256 a) (i_hash160 a) (i_hash256 a) (i_tapkeysig a) (i_tapsigs a) (i_tapscripts a)
+       v (i_tapik a) (i_tapmerkle a) (i_prop a) (i_unknown a).
+
 Inductive hkind := HRipemd | HSha256 | HHash160 | HHash256.
 
 Definition add_preimage (a : pinput) (hk : hkind) (h p : N) : pinput :=
@@ -171,6 +180,34 @@ Definition apply_update (a : pinput) (d : dinfo) : pinput :=
          (i_ripemd a) (i_sha256 a) (i_hash160 a) (i_hash256 a) (i_tapkeysig a) (i_tapsigs a) (i_tapscripts a)
          (i_taporigins a) (i_tapik a) (i_tapmerkle a) (i_prop a) (i_unknown a).
 
+(* an updater that records the scripts and taproot data of a descriptor but NO key origins
+   (bip32_derivation / tap_key_origins are optional in BIP174/371) *)
+Definition strip_origins (d : dinfo) : dinfo :=
+  mkD (d_tr d) (d_segwit d) (d_spk d) (d_ws d) (d_rs d) [] (d_ik d) (d_merkle d) (d_tapscripts d) [].
+
+(* Placeholder::PubkeyHash completion through PsbtInputSatisfier (satisfy/mod.rs satisfy_self):
+   the key behind a raw key hash is looked up in bip32_derivation (lookup_raw_pkh_pk) and, failing
+   that, taken from the partial signature that carries it (lookup_raw_pkh_ecdsa_sig).
+   [pkh_of] maps a key to its hash160. *)
+Definition find_key (pkh_of : N -> N) (h : N) (m : amap) : option N :=
+  option_map fst (find (fun kv => (pkh_of (fst kv) =? h)%N) m).
+Definition resolve_pkh (pkh_of : N -> N) (a : pinput) (h : N) : option N :=
+  match find_key pkh_of h (i_bip32 a) with
+  | Some k => Some k
+  | None => find_key pkh_of h (i_psigs a)
+  end.
+
+(* the same for a tap leaf (x-only keys; since /repo f4ee52fc): PsbtInputSatisfier's
+   lookup_raw_pkh_x_only_pk searches the keys of tap_key_origins, then the keys of
+   tap_script_sigs.  A tap_script_sigs key is the pair (x-only key, leaf hash); [xonly_of]
+   projects its identifier to the key's. *)
+Definition resolve_pkh_tap (pkh_of xonly_of : N -> N) (a : pinput) (h : N) : option N :=
+  match find_key pkh_of h (i_taporigins a) with
+  | Some k => Some k
+  | None => option_map (fun kv => xonly_of (fst kv))
+                       (find (fun kv => (pkh_of (xonly_of (fst kv)) =? h)%N) (i_tapsigs a))
+  end.
+
 Definition txout_eqb (a b : txout) : bool := (to_val a =? to_val b)%N && (to_spk a =? to_spk b)%N.
 
 (* the `expected_spk` block of update_input_with_descriptor; None = UtxoCheck *)
@@ -193,6 +230,9 @@ Inductive op :=
 | AddTapScriptSig (i : nat) (k s : N)        (* inputs[i].tap_script_sigs.insert(k, s) *)
 | AddPreimage (i : nat) (hk : hkind) (h p : N)
 | AddUnknown (i : nat) (k v : N)             (* inputs[i].unknown.insert(k, v) *)
+| AddScripts (i : nat) (d : N)               (* scripts / taproot data of descriptor d written directly, no key origins *)
+| AddDeriv (i : nat) (k v : N)               (* inputs[i].bip32_derivation.insert(k, v) *)
+| AddTapOrigin (i : nat) (k v : N)           (* inputs[i].tap_key_origins.insert(k, v) *)
 | Update (i : nat) (d : N)                   (* update_input_with_descriptor(i, d) *)
 | Finalize (mall : bool)                     (* PsbtExt::finalize_mut / finalize_mall_mut (and by-value forms) *)
 | FinalizeOld (mall : bool)                  (* psbt::finalize / psbt::finalize_mall *)
@@ -416,6 +456,9 @@ Section Model.
     | AddTapScriptSig i k s => on_input st i (fun a => set_tapsigs a (ins k s (i_tapsigs a)))
     | AddPreimage i hk h p => on_input st i (fun a => add_preimage a hk h p)
     | AddUnknown i k v => on_input st i (fun a => set_unknown a (ins k v (i_unknown a)))
+    | AddScripts i d => on_input st i (fun a => apply_update a (strip_origins (desc_info d)))
+    | AddDeriv i k v => on_input st i (fun a => set_bip32 a (ins k v (i_bip32 a)))
+    | AddTapOrigin i k v => on_input st i (fun a => set_taporigins a (ins k v (i_taporigins a)))
     | Update i d => update_input st i d
     | Finalize mall => finalize_mut st mall
     | FinalizeOld mall => finalize_old st mall
